@@ -94,6 +94,17 @@ Definition elements (b : bpseq) (db : list ascii) : elements_t :=
       {| el_stems := stems_; el_single := five ++ three ++ rest; el_hairpins := hairpins; el_loops := fst (loops_of b lc) |}
   end.
 
+(* specification side of "every unpaired nucleotide lies in exactly one strand": how many reported strands have nucleotide k
+   in their interior (5'/3' tails: up to their free end) *)
+Definition cnt {A} (f : A -> bool) (l : list A) : nat := length (filter f l).
+Definition covs (k : nat) (s : strand) : bool := (s_first s <? k) && (k <? s_last s).
+Definition cov1 (k : nat) (x : strand * bool * bool) : bool :=
+  let s := fst (fst x) in
+  if snd (fst x) then (s_first s <=? k) && (k <? s_last s)
+  else if snd x then (s_first s <? k) && (k <=? s_last s) else covs k s.
+Definition times_covered (E : elements_t) (k : nat) : nat :=
+  cnt (cov1 k) (el_single E) + cnt (covs k) (el_hairpins E) + cnt (covs k) (concat (el_loops E)).
+
 (* without_isolated: unpair the stems of length 1 *)
 Definition without_isolated (b : bpseq) : bpseq :=
   let iso := flat_map (fun st => match st with [e] => [idx e; pair e] | _ => [] end) (stems b) in
